@@ -45,7 +45,11 @@ Definition path_key (p : list string) : string := join " :: " p.
 Definition syn_type_path_key (p : list string) : result string :=
   match p with
   | [] => Err ESynParse
-  | _ => if forallb ident_okb p then Ok (path_key p) else Err ESynParse
+  | "" :: ((_ :: _) as p') =>   (* "::a::B" parses, as a type path with a leading colon; such an
+                                    entry makes generation panic at [Ident::new ""] later, its key
+                                    is never looked up successfully *)
+      if forallb path_seg_okb p' then Ok (path_key p) else Err ESynParse
+  | _ => if forallb path_seg_okb p then Ok (path_key p) else Err ESynParse
   end.
 
 (** flat registry: default derives + map from type-path key to derives *)
